@@ -1502,3 +1502,20 @@ package rockredis
 //@   callassert lEncodeListKey sameSlice(arg0, table) && sameSlice(arg1, rk) && (arg2 == headSeq || arg2 == tailSeq)
 //@   ensures result1 == nil && ghost(curexists, db) == 0 ==> len(result0) == 0
 //@   modifies *
+
+// ---- sorted-set range reads (C08, C09): the score index is read over exactly [minKey, maxKey] (closed), with the
+// caller's offset and count; backwards when reverse - except the whole-range case (offset 0, no count), which reads
+// forwards and reverses the page afterwards; the reversal loop swaps symmetric positions.  ZSCORE of an expired /
+// absent set is a miss (partial contracts: these assertions only) ----
+//@ property C08 C09
+//@ func (db *RockDB) zRangeBytes(ts int64, preCheckCnt bool, key []byte, minKey []byte, maxKey []byte, offset int, count int, reverse bool) ([]common.ScorePair, error)
+//@   opt only=ASSERT,POST
+//@   opt autoloops
+//@   callassert NewDBRangeLimitIterator sameSlice(arg1, minKey) && sameSlice(arg2, maxKey) && arg3 == common.RangeClose && arg4 == offset && arg5 == count && (arg6 <==> (reverse && !(offset == 0 && count < 0))) && offset >= 0 && count <= MAX_BATCH_NUM
+//@   ensures offset < 0 && result1 == nil ==> len(result0) == 0
+//@   ensures count > MAX_BATCH_NUM && offset >= 0 ==> result1 != nil
+//@   modifies *
+//@ func (db *RockDB) ZScore(key []byte, member []byte) (float64, error)
+//@   opt only=POST
+//@   ensures ghost(collexpired, db) == 1 || ghost(collabsent, db) == 1 ==> result1 != nil
+//@   modifies *
